@@ -703,6 +703,14 @@ func (s *c20Server) observe(ok bool, id string, newIDs []string) (hx.Sx, error) 
 			return hx.Sx{}, err
 		}
 		more = append(more, hx.L(hx.I(3), hx.S("L:upload:"+nid), hx.List(rows)))
+		// labels every stored record carries: the first and last the server adds, and the
+		// benchmark name (the last label row a record gets)
+		for _, k := range []string{"upload-part", "upload-time", "name"} {
+			if rows, err = s.search("upload:" + nid + " " + k + ">"); err != nil {
+				return hx.Sx{}, err
+			}
+			more = append(more, hx.L(hx.I(5), hx.S("S:upload:"+nid+" "+k+">"), hx.List(rows)))
+		}
 	}
 	return hx.L(hx.Bool(ok), hx.S(id), hx.List(sr), hx.List(li), hx.List(fl), hx.List(more)), nil
 }
@@ -1535,7 +1543,7 @@ func c20IDs(o *hx.Out, nseq, ngo, each int, txlock string, failEvery int) error 
 
 func genC20(o *hx.Out, r *hx.Rng, tier string, replay string) error {
 	log.SetOutput(io.Discard)
-	o.Rule = "per scenario (a history of 0-3 earlier uploads made through the same HTTP path, about half of them meeting one fault - a file-store or database operation failing, the body cut, the connection dropped, the client's Abort, an unexpected field, a file without benchmark lines, refused rows - and so failing; then a request of 1-3 files + commit field): the fault-free run; every file-store operation index failing in turn (create / each header write / separator / body writes / close, plus one index beyond); every database operation index failing in turn (NewUpload's begin/read/insert/commit, begin of the records transaction, each flush INSERT incl. the 990-argument boundary in the big scenarios, final commit, plus one beyond); an unexpected field and a client Abort (storage.Client) at every position; each file in turn without benchmark lines, and with a label the database refuses; a request without files; the multipart body cut at byte offsets both with intact HTTP framing and as a dropped connection (every offset in the designated scenarios; in every scenario the offsets inside each delimiter line: after CR, CRLF, the dashes, half the boundary, the complete \\r\\n--BOUNDARY, and one byte further). The same enumeration on the local-disk file store (storage/fs/local over a fresh directory; write faults as short writes; the directory is walked afterwards, every name counts). Uploads of 2-4 files with one (every position, every kind of benchmark-free content) or two files without benchmark lines, on both stores. Big uploads: a first file of 600-2000 records with pairwise distinct labels (more than 16 flushes of the database layer's 990-argument buffer inside the one records transaction), alone or followed by a small file, and then one failing step each: a later file without benchmark lines, a later file whose rows the database refuses, an abort field, an unexpected field, the client's Abort, the body cut / the connection dropped late in the big file, in the later file and in the closing delimiter, a file-store fault in the last operations and late in the big file, a database fault at a flush beyond the 16th batch, at the last flush, at the flush of Commit and at the commit; plus the intact request. Before and after each run are recorded: /search upload> and four label queries, /uploads plain, with a query, with extra_label, with a limit, the search and the listing for upload:<id> of every ID the run is seen to use, the file store, and every ID ever seen in use (rows of the Uploads table, uploads/<id>/ directories, noted after every step of the history). An injected Close fault only makes Close return an error; the file stays in the store until the server has it removed. Plus DB.NewUpload 40 times sequentially and from 16 goroutines on one file-backed sqlite database (deferred and immediate transactions), and again with every 11th / 7th database operation failing. ID histories (tagged clock hook db.VerifSetNow): 5-12 steps of NewUpload at chosen clock readings on three consecutive UTC days (shown in several time zones, around midnight, over month/year/leap-day boundaries) where the reading is on an EARLIER day than the newest upload - the earlier day without uploads, with upload .1, with several (patterns: step back over midnight, two front ends one day apart taking turns, the earlier day has uploads before the later day starts, explicit IDs out of order via ReplaceUpload of an absent ID: same day with a lower counter / an older day, random) - each upload inserting 0-3 records and committed or aborted; after every step the result and the listing of all uploads; and 8 goroutines allocating on one database while the clock alternates between two days that both have uploads. non-trivial = every case"
+	o.Rule = "per scenario (a history of 0-3 earlier uploads made through the same HTTP path, about half of them meeting one fault - a file-store or database operation failing, the body cut, the connection dropped, the client's Abort, an unexpected field, a file without benchmark lines, refused rows - and so failing; then a request of 1-3 files + commit field): the fault-free run; every file-store operation index failing in turn (create / each header write / separator / body writes / close, plus one index beyond); every database operation index failing in turn (NewUpload's begin/read/insert/commit, begin of the records transaction, each flush INSERT incl. the 990-argument boundary in the big scenarios, final commit, plus one beyond); an unexpected field and a client Abort (storage.Client) at every position; each file in turn without benchmark lines, and with a label the database refuses; a request without files; the multipart body cut at byte offsets both with intact HTTP framing and as a dropped connection (every offset in the designated scenarios; in every scenario the offsets inside each delimiter line: after CR, CRLF, the dashes, half the boundary, the complete \\r\\n--BOUNDARY, and one byte further). The same enumeration on the local-disk file store (storage/fs/local over a fresh directory; write faults as short writes; the directory is walked afterwards, every name counts). Uploads of 2-4 files with one (every position, every kind of benchmark-free content) or two files without benchmark lines, on both stores. Big uploads: a first file of 600-2000 records with pairwise distinct labels (more than 16 flushes of the database layer's 990-argument buffer inside the one records transaction), alone or followed by a small file, and then one failing step each: a later file without benchmark lines, a later file whose rows the database refuses, an abort field, an unexpected field, the client's Abort, the body cut / the connection dropped late in the big file, in the later file and in the closing delimiter, a file-store fault in the last operations and late in the big file, a database fault at a flush beyond the 16th batch, at the last flush, at the flush of Commit and at the commit; plus the intact request. Fault-free single-file uploads of n = 1, 2, 3, ... records with pairwise distinct labels up to past the second forced 990-argument flush (every n within -1..+2 records of a flush boundary, every third elsewhere; every n in the thorough tier), so that the last record of an upload is the one being inserted when a forced flush fires. Before and after each run are recorded: /search upload> and four label queries, /uploads plain, with a query, with extra_label, with a limit, the search and the listing for upload:<id> of every ID the run is seen to use and the searches upload:<id> narrowed by upload-part> / upload-time> / name> (labels every stored record carries), the file store, and every ID ever seen in use (rows of the Uploads table, uploads/<id>/ directories, noted after every step of the history). An injected Close fault only makes Close return an error; the file stays in the store until the server has it removed. Plus DB.NewUpload 40 times sequentially and from 16 goroutines on one file-backed sqlite database (deferred and immediate transactions), and again with every 11th / 7th database operation failing. ID histories (tagged clock hook db.VerifSetNow): 5-12 steps of NewUpload at chosen clock readings on three consecutive UTC days (shown in several time zones, around midnight, over month/year/leap-day boundaries) where the reading is on an EARLIER day than the newest upload - the earlier day without uploads, with upload .1, with several (patterns: step back over midnight, two front ends one day apart taking turns, the earlier day has uploads before the later day starts, explicit IDs out of order via ReplaceUpload of an absent ID: same day with a lower counter / an older day, random) - each upload inserting 0-3 records and committed or aborted; after every step the result and the listing of all uploads; and 8 goroutines allocating on one database while the clock alternates between two days that both have uploads. non-trivial = every case"
 	nscen, nall, nbig, ndisk, nmixed := 6, 2, 1, 2, 1
 	each := 50
 	if tier == "thorough" {
@@ -1585,5 +1593,7 @@ func genC20(o *hx.Out, r *hx.Rng, tier string, replay string) error {
 	if err := genC20Clock(o, r.Split(), tier); err != nil {
 		return err
 	}
-	return nil
+	// fault-free uploads of every size around the database layer's forced flushes (c20gaps.go);
+	// last, so that the case numbers of everything above stay what they were
+	return c20BoundarySweep(o, r.Split(), tier == "thorough")
 }
